@@ -6,6 +6,8 @@ package main
 import (
 	"fmt"
 	"math/big"
+	"os"
+	"runtime/debug"
 
 	sifapp "github.com/Sifchain/sifnode/app"
 	admintypes "github.com/Sifchain/sifnode/x/admin/types"
@@ -89,6 +91,9 @@ func (e *env) deliver(h int64, validate func() error, run func(ctx sdk.Context) 
 			if r := recover(); r != nil {
 				panicked = true
 				err = fmt.Errorf("panic: %v", r)
+				if os.Getenv("VERIF_PANIC_TRACE") != "" { // diagnosis: value and stack of a panic inside a real handler
+					fmt.Fprintf(os.Stderr, "PANIC at height %d: %v\n%s\n", h, r, debug.Stack())
+				}
 			}
 		}()
 		err = run(cctx)
